@@ -31,6 +31,11 @@ type cacheStack struct {
 func cacheNew(t []string) *cacheStack {
 	b, l := afero.NewMemMapFs(), afero.NewMemMapFs()
 	d := time.Duration(atoi64(t[2])) * time.Second
+	if t[1] == "cache-robase" {
+		// the base refuses every mutation (the configuration the type's documentation recommends): a call
+		// that fails in the base must leave the cache as it was
+		return &cacheStack{afero.NewCacheOnReadFs(afero.NewReadOnlyFs(b), l, d), b, l, d}
+	}
 	return &cacheStack{afero.NewCacheOnReadFs(b, l, d), b, l, d}
 }
 
@@ -101,6 +106,12 @@ func cacheRunImpl(c corr.Case) []string {
 				p := string(corr.UnHex(t[1]))
 				class, want, ok := st.predict(p)
 				bfiBefore, _ := st.base.Stat(p)
+				othersBefore := map[string]string{} // the cached copies of every OTHER file: a read must leave them alone
+				for _, n := range SnapshotMem(st.layer) {
+					if !n.Dir && n.Path != filepath.Clean(p) {
+						othersBefore[n.Path] = fmt.Sprintf("%x|%d", n.Data, n.MTime)
+					}
+				}
 				lfiBefore, _ := st.layer.Stat(p)
 				var lmBefore time.Time
 				if lfiBefore != nil {
@@ -118,6 +129,17 @@ func cacheRunImpl(c corr.Case) []string {
 				}
 				if !bytes.Equal(got, want) {
 					return fmt.Sprintf("rd fail(%s): served %x, the rule gives %x", class, got, want)
+				}
+				after := map[string]string{}
+				for _, n := range SnapshotMem(st.layer) {
+					if !n.Dir {
+						after[n.Path] = fmt.Sprintf("%x|%d", n.Data, n.MTime)
+					}
+				}
+				for q, v := range othersBefore {
+					if after[q] != v {
+						return fmt.Sprintf("rd fail(%s): reading %s changed or dropped the cached copy of %s", class, p, q)
+					}
 				}
 				if class == "miss" || class == "stale" {
 					// a byte-identical copy with the base's modification time is left in the cache layer
@@ -211,7 +233,8 @@ func c11Oracle(c corr.Case, impl []string) (string, int) {
 
 // ---- C10 generators ----
 
-var c10Files = []string{"/f", "/d/g", "/d/e/h"}
+// (siblings whose names differ by a suffix a temporary file might be given)
+var c10Files = []string{"/f", "/d/g", "/d/e/h", "/d/g.tmp", "/d/g.partial", "/d/g~"}
 
 func c10Exhaustive(tier string) []corr.Case {
 	h := corr.HexS
@@ -262,6 +285,25 @@ func c10Exhaustive(tier string) []corr.Case {
 				fmt.Sprintf("b.chtimesms %s %d", h(p), ct+d),
 				"readthrough " + h(p), "readthrough " + h(p), "snapshot"}
 			cases = append(cases, corr.Case{Lines: l})
+		}
+	}
+	// two siblings whose names differ by a temporary-file suffix: caching one must not disturb the cached copy of the other
+	for _, dur := range durs {
+		for _, sfx := range []string{".tmp", ".partial", "~", ".bak", ".new"} {
+			for _, firstA := range []bool{true, false} {
+				a, b := "/d/g", "/d/g"+sfx
+				first, second := b, a
+				if firstA {
+					first, second = a, b
+				}
+				l := []string{fmt.Sprintf("case cache-mem %d", dur), "b.mkdirall " + h("/d") + " 493",
+					"b.create " + h(a), "h.write 0 6161616161", "h.close 0", "b.create " + h(b), "h.write 1 62626262", "h.close 1",
+					"b.chtimes " + h(a) + " -9000", "b.chtimes " + h(b) + " -9000",
+					"readthrough " + h(first), "readthrough " + h(second),
+					"b.openfile " + h(first) + " 514 420", "h.write 2 6e6577", "h.close 2", "b.chtimes " + h(first) + " -100",
+					"readthrough " + h(first), "readthrough " + h(second), "snapshot"}
+				cases = append(cases, corr.Case{Lines: l})
+			}
 		}
 	}
 	// directories are never copied; listing through the cache
@@ -378,7 +420,7 @@ func C10() *corr.Engine {
 // ---- C11 generators: everything goes through the cache ----
 
 var c11Dirs = []string{"/d", "/d/s", "/e"}
-var c11Files = []string{"/d/f", "/d/g", "/d/s/h", "/e/k", "/top"}
+var c11Files = []string{"/d/f", "/d/g", "/d/s/h", "/e/k", "/top", "/d/g.tmp", "/d/f.partial"}
 
 func c11Random(r *corr.Rand, tier string) []corr.Case {
 	n := 700
@@ -490,6 +532,24 @@ func c11Exhaustive(tier string) []corr.Case {
 	return cases
 }
 
+// c11RoBase: every mutating call through a cache whose base refuses mutations: the call fails and base
+// and cache stay identical (oracle only; the model covers the all-memory stack)
+func c11RoBase() []corr.Case {
+	h := corr.HexS
+	var cases []corr.Case
+	for _, dur := range []int{0, 3600} {
+		setup := []string{fmt.Sprintf("case cache-robase %d", dur), "b.mkdirall " + h("/d") + " 493", "b.create " + h("/d/f"), "h.write 0 6261736566", "h.close 0",
+			"b.chtimes " + h("/d/f") + " -9000", "open " + h("/d/f"), "h.read 1 16", "h.close 1"} // /d/f is cached now
+		for _, op := range []string{"create " + h("/d/new"), "create " + h("/d/f"), "openfile " + h("/d/new") + " 66 420", "openfile " + h("/d/f") + " 578 420",
+			"openfile " + h("/d/f") + " 1026 420", "mkdir " + h("/d/sub") + " 493", "mkdirall " + h("/x/y") + " 493", "remove " + h("/d/f"), "removeall " + h("/d"),
+			"rename " + h("/d/f") + " " + h("/d/g"), "chmod " + h("/d/f") + " 384", "chtimes " + h("/d/f") + " -5", "chown " + h("/d/f") + " 1 1"} {
+			l := append(append([]string{}, setup...), op, "stat "+h("/d/f"), "snapshot", "cohere")
+			cases = append(cases, corr.Case{Lines: l})
+		}
+	}
+	return cases
+}
+
 func c11Corpus() []corr.Case {
 	h := corr.HexS
 	return []corr.Case{
@@ -524,7 +584,7 @@ func c11NonTrivial(c corr.Case, impl []string) bool {
 func C11() *corr.Engine {
 	e := C10()
 	e.ID = "C11"
-	e.Exhaustive = c11Exhaustive
+	e.Exhaustive = func(tier string) []corr.Case { return append(c11Exhaustive(tier), c11RoBase()...) }
 	e.Random = c11Random
 	e.Corpus = c11Corpus
 	e.Oracle = c11Oracle
